@@ -7,5 +7,6 @@ CONSTANTS
   MaxLen = 5
   MaxTimeouts = 1
   MaxForged = 2
+  MaxFire = 1
 INVARIANTS TypeOK FinalisedAtMostOncePerBlock OneBlockPerProposalKey OnlySharesForTheBlock LateSharesCount
 CHECK_DEADLOCK FALSE
